@@ -168,6 +168,27 @@ def gen_skew(ops_un, ops_bin, rootops):
 
 
 # ---------------------------------------------------------------- string references (MediaWiki help texts)
+def r_urlencode(s, mode="QUERY"):
+    """Help:Magic words: QUERY (default, also for an unknown mode) is PHP's urlencode (alphanumerics and -_. stay, blank -> +),
+    PATH is rawurlencode (-_.~ stay, blank -> %20), WIKI turns blanks into _ and then keeps ;@$!*(),/~: as well."""
+    s = s.strip()
+    mode = mode.strip().upper()
+    if mode not in ("QUERY", "PATH", "WIKI"):
+        mode = "QUERY"
+    keep = "-_." + ("~" if mode == "PATH" else "") + (";@$!*(),/~:" if mode == "WIKI" else "")
+    if mode == "WIKI":
+        s = s.replace(" ", "_")
+    out = []
+    for ch in s:
+        if ch.isascii() and (ch.isalnum() or ch in keep):
+            out.append(ch)
+        elif ch == " " and mode == "QUERY":
+            out.append("+")
+        else:
+            out.append("".join("%%%02X" % b for b in ch.encode("utf-8")))
+    return "".join(out)
+
+
 def r_len(s):
     return str(len(s.strip()))
 
@@ -262,8 +283,9 @@ def string_cases(tier):
         yield "{{uc:%s}}" % s, core.upper()
         yield "{{lcfirst:%s}}" % s.upper(), (core.upper()[:1].lower() + core.upper()[1:])
         yield "{{ucfirst:%s}}" % s, (core[:1].upper() + core[1:])
-        yield "{{urlencode:%s}}" % s, urllib.parse.quote_plus(core)
-        yield "{{urlencode:%s|PATH}}" % s, urllib.parse.quote(core, safe="")
+        yield "{{urlencode:%s}}" % s, r_urlencode(s)
+        yield "{{urlencode:%s|PATH}}" % s, r_urlencode(s, "PATH")
+        yield "{{urlencode:%s|WIKI}}" % s, r_urlencode(s, "WIKI")
         yield "{{#urldecode:%s}}" % urllib.parse.quote_plus(core), core
         for se in SEARCH:
             yield "{{#pos:%s|%s}}" % (s, se), r_pos(s, se)
@@ -295,6 +317,10 @@ def string_cases(tier):
                            ("padright", ["x", "3", " ab "], "xab"), ("#replace", ["a_b\n", "_\n", "x"], "axb"),
                            ("#sub", [" abc ", " 1 ", " 1 "], "b")):
         yield "{{%s:%s}}" % (fn, "|".join(args)), want
+    for u in ("a~b", "a,b (c)", "x/y:z", "é ü", "a+b&c=d", "100%", "a  b"):
+        for mode in ("", "QUERY", "PATH", "WIKI", "path", " PATH ", "FOO"):
+            yield "{{urlencode:%s|%s}}" % (u, mode), r_urlencode(u, mode or "QUERY")
+        yield "{{urlencode:%s}}" % u, r_urlencode(u)
     # arithmetic errors are error elements (so that #iferror sees them), reported once
     for t, want in (("{{#iferror:{{#expr:1/0}}|err|ok}}", "err"), ("{{#iferror:{{#expr:1 mod 0}}|err|ok}}", "err"),
                     ("{{#iferror:{{#expr:sqrt -1}}|err|ok}}", "err"), ("{{#iferror:{{#expr:1/1}}|err|ok}}", "ok"),
